@@ -1464,6 +1464,10 @@ impl CodegenContext {
                     }
                 }
 
+                // (in the order in which the macros were defined and not in the hash order of the symbol map: what a name
+                // in one uninvoked macro resolves to may depend on what another one has already defined)
+                macro_defs.sort_by_key(|(symbol_nx, _)| symbol_nx.index());
+
                 for (symbol_nx, def) in macro_defs {
                     if s.symbol_definition(symbol_nx).is_unused() {
                         let _ = s.emit_tokens(&def.block);
